@@ -429,6 +429,29 @@ def check_laws(s):
         if r2 != s:
             bad.append(('law:%s-roundtrip' % u, '%s(%s(%r)) == %r' % (
                 u, q, s, r2)))
+    # ... in templates created with another encoding as well: what one
+    # tag quotes, another tag of the same template unquotes
+    from DocumentTemplate import HTML
+    for enc in ('latin-1', 'cp1252', 'utf-16'):
+        for q, u in (('url_quote', 'url_unquote'),
+                     ('url_quote_plus', 'url_unquote_plus')):
+            key = ('enc', enc, q)
+            t = _T.get(key)
+            if t is None:
+                t = _T[key] = (
+                    HTML('<dtml-var x %s>' % q, encoding=enc),
+                    HTML('<dtml-var x %s>' % u, encoding=enc),
+                    HTML('<dtml-var x fmt=%s %s>' % (q.replace('_', '-'), u),
+                         encoding=enc))
+            try:
+                r2 = t[1](x=t[0](x=s))
+                r3 = t[2](x=s)
+            except Exception as e:
+                r2 = r3 = repr(e)
+            if r2 != s or r3 != s:
+                bad.append(('law:%s-roundtrip:encoded-template' % u,
+                            'template encoding %s: %s(%s(%r)) == %r; in one '
+                            'tag %r' % (enc, u, q, s, r2, r3)))
     r = render_opts(['sql_quote'], dict(x=s))
     if any(c in r for c in '\0\x1a\r') or re.sub("''", '', r).count("'") or \
             r != F['sql_quote'](s):
